@@ -1,5 +1,6 @@
 import CatiiProofs.KernTop
 import CatiiProofs.KernManyBounds
+import CatiiProofs.KernGenBridge
 /-!
 # C09 — the kernels never touch memory outside their buffers
 
@@ -56,6 +57,21 @@ theorem output_fits (L R : Array Nat) :
     · simpa using dif_length_le L.toList R.toList
     · simp
 
+/-- The kernels REGENERATED from the current `set_operations.pyx` (`tools/translate_pyx.py`; every source-level `a[i]` a
+checked read, every `view[i] = e` a checked write into a buffer of exactly the allocated size, every integer
+subtraction checked against going below zero): for ALL operands - sorted or not, empty or not - and whatever the
+freshly allocated result buffer contained, no access fails, and the returned prefix fits the allocation. -/
+theorem generated_kernels_in_bounds (junk : Nat → Nat) (L R : Array Nat) :
+    (∃ out, KernGen.set_intersect_merge_np junk L R = .ok out ∧ out.size ≤ min L.size R.size) ∧
+    (∃ out, KernGen.set_union_merge_np junk L R = .ok out ∧ out.size ≤ L.size + R.size) ∧
+    (∃ out, KernGen.set_difference_merge_np junk L R = .ok out ∧ out.size ≤ L.size) := by
+  rw [gen_intersect_eq, gen_union_eq, gen_difference_eq]
+  obtain ⟨o1, h1⟩ := intersect_in_bounds L R
+  obtain ⟨o2, h2⟩ := union_in_bounds L R
+  obtain ⟨o3, h3⟩ := difference_in_bounds L R
+  obtain ⟨f1, f2, f3⟩ := output_fits L R
+  exact ⟨⟨o1, h1, f1 o1 h1⟩, ⟨o2, h2, f2 o2 h2⟩, ⟨o3, h3, f3 o3 h3⟩⟩
+
 theorem wrappers_in_bounds (l r : Option (Array Nat)) :
     (∃ a, intersectionW l r = .ok a) ∧ (∃ a, unionW l r = .ok a) ∧ (∃ a, differenceW l r = .ok a) := by
   refine ⟨?_, ?_, ?_⟩
@@ -81,6 +97,10 @@ theorem historical_guard_reads_out_of_bounds :
 /-! Non-vacuity: unsorted and empty operands are in scope. -/
 example : interK #[3, 1, 2] #[] = .ok #[] ∧ unionK #[3, 1] #[2, 2] = .ok #[2, 2, 3, 1] ∧
     diffK #[] #[1] = .ok #[] := by decide
+
+example : KernGen.set_intersect_merge_np (fun _ => 9) #[3, 1, 2] #[] = .ok #[] ∧
+    KernGen.set_union_merge_np (fun _ => 9) #[3, 1] #[2, 2] = .ok #[2, 2, 3, 1] ∧
+    KernGen.set_difference_merge_np (fun _ => 9) #[] #[1] = .ok #[] := by decide +kernel
 
 -- non-vacuity: the extreme row ids together, an empty array in between; an unsorted input is still in bounds
 example : unionManyChecked [#[0, 4294967295], #[], #[3, 7]] = .ok #[0, 3, 7, 4294967295] := by decide +kernel
